@@ -207,6 +207,20 @@ def strings(ctx: Ctx):
             if list(got) != sig:
                 ctx.violation("parse|value", f"str_to_sisig({s!r}) = {list(got)}, specification {sig}", {"s": s, "sig": sig})
                 continue
+            # parsing is a FUNCTION of the string: what a caller does with the list it was handed (here: an in-place edit) must not
+            # change what the same string means afterwards, neither for the parser nor for quantities built from it
+            try:
+                if isinstance(got, list):
+                    got[n % len(got)] += 7
+                again = U.SI.str_to_sisig(s)
+                built = U.SI(2.0, s).sisig()
+                if list(again) != sig or list(built) != sig:
+                    ctx.violation("parse|aliased", f"after an in-place edit of the list returned by str_to_sisig({s!r}) the string parses as {list(again)} and "
+                                                   f"SI(2.0, {s!r}) has signature {list(built)}; specification {sig}", {"s": s, "sig": sig})
+                    continue
+            except Exception as ex:
+                ctx.violation(f"parse|aliased|{type(ex).__name__}", f"re-parsing {s!r} after an in-place edit of the earlier result: {type(ex).__name__}: {ex}", {"s": s, "sig": sig})
+                continue
             # the real printer, parsed back by the real parser
             try:
                 v = U.SI(1.0, s)
